@@ -79,3 +79,162 @@ theorem C01_named (es : List Entry) (st : ProcState) (i j : Nat) (e : BkErrS)
     | fuelOut => rw [hs] at h; simp at h
 
 end Okane
+
+namespace Okane
+open Spec
+
+/-! ## well-formedness of what `process` emits, and agreement of the three reports -/
+
+/-- every posting amount of an accepted transaction has unique keys -/
+theorem txn_postings_WF {α κ : Type} [DecidableEq α] [DecidableEq κ]
+    (prec : κ → Option Nat) (bal : Balance α κ) (t : RTxn α κ) (res : TxnResult α κ)
+    (h : addTransaction prec bal t = .ok res) (hinv : Balance.Inv bal) :
+    ∀ o ∈ res.txn.postings, AMap.WF o.amount := by
+  rw [addTransaction_eq_finish] at h
+  cases hloop : loopPostings t.date ⟨[], none, [], bal, [], []⟩ 0 t.posts with
+  | ok st =>
+    rw [hloop] at h
+    simp only at h
+    obtain ⟨_, outs, hp, hwfs, _⟩ := C02_invariant t.date t.posts _ st 0 hloop hinv
+    simp only [List.nil_append] at hp
+    have hbal := BalOK_loop t.date t.posts _ st 0 hloop (BalOK_init bal)
+    unfold finishG at h
+    cases hu : st.unfilled with
+    | some u =>
+      simp only [hu] at h
+      cases hg : st.postings[u]? with
+      | none => simp [hg] at h
+      | some o0 =>
+        simp only [hg, Option.map_some, Outcome.ok.injEq] at h
+        subst h
+        intro o ho
+        simp only at ho
+        rw [List.mem_iff_getElem?] at ho
+        obtain ⟨j, hj⟩ := ho
+        rw [List.getElem?_modify] at hj
+        by_cases hju : u = j
+        · subst hju
+          simp only [hg, if_true] at hj
+          simp only [Functor.map, Option.map, Option.some.injEq] at hj
+          rw [← hj]; exact Amount.WF_neg _ hbal.1
+        · simp only [hju, if_false] at hj
+          have hj' : st.postings[j]? = some o := by
+            cases hq : st.postings[j]? with
+            | none => simp [hq, Functor.map, Option.map] at hj
+            | some q => simp [hq, Functor.map, Option.map] at hj; rw [hj]
+          exact hwfs o (by rw [← hp]; exact List.mem_of_getElem? hj')
+    | none =>
+      simp only [hu] at h
+      cases hcb : checkBalance prec t.date st.postings st.balance with
+      | ok r =>
+        obtain ⟨postings, pe⟩ := r
+        rw [hcb] at h
+        simp only [Outcome.ok.injEq] at h; subst h
+        unfold checkBalance at hcb
+        simp only at hcb
+        intro o ho
+        simp only at ho
+        split at hcb
+        · simp only [Outcome.ok.injEq, Prod.mk.injEq] at hcb
+          rw [← hcb.1, hp] at ho; exact hwfs o ho
+        · split at hcb
+          · simp only [Outcome.ok.injEq, Prod.mk.injEq] at hcb
+            rw [← hcb.1, hp, List.mem_map] at ho
+            obtain ⟨o', ho', he⟩ := ho
+            rw [← he, fillConverted_amount]; exact hwfs o' ho'
+          · simp at hcb
+      | err e => rw [hcb] at h; simp at h
+      | panic e => rw [hcb] at h; simp at h
+      | fuelOut => rw [hcb] at h; simp at h
+  | err e => rw [hloop] at h; simp at h
+  | panic e => rw [hloop] at h; simp at h
+  | fuelOut => rw [hloop] at h; simp at h
+
+theorem PostingsWF_append {α κ : Type} [DecidableEq α] [DecidableEq κ] (txns : List (OutTxn α κ)) (t : OutTxn α κ)
+    (h : PostingsWF txns) (ht : ∀ o ∈ t.postings, AMap.WF o.amount) : PostingsWF (txns ++ [t]) := by
+  intro dp hdp
+  simp only [allPostings, List.flatMap_append, List.flatMap_cons, List.flatMap_nil, List.append_nil, List.mem_append,
+    List.mem_map] at hdp
+  rcases hdp with hdp | ⟨o, ho, rfl⟩
+  · exact h dp (by simpa [allPostings] using hdp)
+  · exact ht o ho
+
+theorem processFrom_PostingsWF (es : List Entry) (st st' : ProcState) (i : Nat)
+    (h : processFrom st i es = .ok st') (hr : st.RawOK) (hw : PostingsWF st.txns) : PostingsWF st'.txns := by
+  induction es generalizing st i with
+  | nil => simp only [processFrom, Outcome.ok.injEq] at h; subst h; exact hw
+  | cons e es ih =>
+    simp only [processFrom] at h
+    cases hs : stepEntry st e with
+    | ok st1 =>
+      rw [hs] at h
+      refine ih st1 (i + 1) h (RawOK_step st st1 e hs hr) ?_
+      cases e with
+      | txn t =>
+        simp only [stepEntry] at hs
+        cases ha : addTransactionSyntax st.ctx st.bal t with
+        | ok x =>
+          obtain ⟨c', r⟩ := x
+          rw [ha] at hs
+          simp only [Outcome.ok.injEq] at hs
+          subst hs
+          obtain ⟨rps, _, hcore, _⟩ := addTransactionSyntax_core st.ctx c' st.bal t r ha
+          exact PostingsWF_append _ _ hw (txn_postings_WF st.ctx.prec st.bal ⟨t.date, rps⟩ r hcore hr.1)
+        | err x => rw [ha] at hs; simp at hs
+        | panic x => rw [ha] at hs; simp at hs
+        | fuelOut => rw [ha] at hs; simp at hs
+      | account name details =>
+        simp only [stepEntry] at hs
+        split at hs
+        · split at hs
+          · simp only [Outcome.ok.injEq] at hs; subst hs; exact hw
+          all_goals simp at hs
+        all_goals simp at hs
+      | commodity name details =>
+        simp only [stepEntry] at hs
+        split at hs
+        · split at hs
+          · simp only [Outcome.ok.injEq] at hs; subst hs; exact hw
+          all_goals simp at hs
+        all_goals simp at hs
+      | comment s => simp only [stepEntry, Outcome.ok.injEq] at hs; subst hs; exact hw
+      | applyTag k v => simp only [stepEntry, Outcome.ok.injEq] at hs; subst hs; exact hw
+      | endApplyTag => simp only [stepEntry, Outcome.ok.injEq] at hs; subst hs; exact hw
+      | «include» p => simp only [stepEntry, Outcome.ok.injEq] at hs; subst hs; exact hw
+    | err x => rw [hs] at h; simp at h
+    | panic x => rw [hs] at h; simp at h
+    | fuelOut => rw [hs] at h; simp at h
+
+theorem selSum_all (txns : List (OutTxn String String)) (a c : String) :
+    selSum (allPostings txns) (fun _ => true) a c = ledgerSum txns a c := by
+  induction txns with
+  | nil => simp [selSum, allPostings, ledgerSum]
+  | cons t ts ih =>
+    simp only [selSum, allPostings, List.flatMap_cons, List.map_append, List.sum_append, ledgerSum, List.map_cons,
+      List.sum_cons] at ih ⊢
+    rw [ih]
+    congr 1
+    simp [acctSum, List.map_map, Function.comp_def]
+
+/-- **C04_agree**: for every accepted ledger the whole-history balance, the balance recomputed over the unbounded
+range and (per account) the sum of the register agree, value by value. -/
+theorem C04_agree (es : List Entry) (st : ProcState) (h : process es = .ok st) (a c : String) :
+    Amount.getPart (Balance.get (rangeBalanceRaw st.txns ⟨none, none⟩) a) c = Amount.getPart (Balance.get st.bal a) c ∧
+    Amount.getPart (Balance.get st.bal a) c = ledgerSum st.txns a c := by
+  have hw := processFrom_PostingsWF es {} st 0 h RawOK_init (by intro dp hdp; simp [allPostings] at hdp)
+  have hraw := (C04_raw es st h a c).1
+  refine ⟨?_, hraw⟩
+  rw [(C04_range st.txns ⟨none, none⟩ hw a c).1, hraw]
+  have : (DateRange.contains ⟨none, none⟩) = fun _ => true := by funext d; simp [DateRange.contains]
+  rw [this, selSum_all]
+
+/-- **C04_range / C04_additive for `process`**: no side condition is left. -/
+theorem C04_additive_process (es : List Entry) (st : ProcState) (h : process es = .ok st)
+    (s e : Option Date) (m : Date) (hsm : ∀ s', s = some s' → s' ≤ m) (hme : ∀ e', e = some e' → m ≤ e') (a c : String) :
+    Amount.getPart (Balance.get (rangeBalanceRaw st.txns ⟨s, e⟩) a) c =
+      Amount.getPart (Balance.get (rangeBalanceRaw st.txns ⟨s, some m⟩) a) c +
+      Amount.getPart (Balance.get (rangeBalanceRaw st.txns ⟨some m, e⟩) a) c :=
+  C04_additive st.txns s e m hsm hme
+    (processFrom_PostingsWF es {} st 0 h RawOK_init (by intro dp hdp; simp [allPostings] at hdp)) a c
+
+end Okane
